@@ -83,6 +83,24 @@ type Node struct {
 	fsOps      int64
 	steps      int64
 	stalledTil int64
+	// CrashAtStep, when >0, crashes the node at the scheduling point where
+	// its step counter reaches this value (every yield is a crash point).
+	CrashAtStep int64
+}
+
+// Steps returns how many scheduling points tasks of this node have passed.
+func (n *Node) Steps() int64 { return n.steps }
+
+// FSOps returns how many file-system operations tasks of this node issued.
+func (n *Node) FSOps() int64 { return n.fsOps }
+
+func (n *Node) stepHook() {
+	n.steps++
+	if n.CrashAtStep > 0 && n.steps >= n.CrashAtStep && !n.Dead {
+		n.CrashAtStep = 0
+		Event("CRASH-AT-STEP node=%s step=%d", n.Name, n.steps)
+		Crash(n)
+	}
 }
 
 // Task is one simulated goroutine.
@@ -686,7 +704,7 @@ func (s *Sim) yield() {
 		return
 	}
 	if t.node != nil {
-		t.node.steps++
+		t.node.stepHook()
 	}
 	t.state = stRunnable
 	next := s.pick(t)
@@ -736,7 +754,7 @@ func Block(why string, try func() bool) {
 		return
 	}
 	if t.node != nil {
-		t.node.steps++
+		t.node.stepHook()
 	}
 	if try() {
 		return
